@@ -12,7 +12,7 @@
 //   w async_and_wait_f   A apply(2)   3 apply(3)
 //   k async of a block object created with DISPATCH_BLOCK_BARRIER
 //   p async_f then wait (scheduler-level) until that item has finished ("ping-pong")
-//   U suspend  R resume  (C06)
+//   U suspend  R resume  (C06)   z the client thread sleeps 1 virtual ms (queue index ignored)
 //   x async an item that blocks on a semaphore   y async an item that releases every x item
 //     (pool exhaustion: the x items park every pool thread; y is queued behind them)
 // program flags (before the queues, each followed by ';'):
